@@ -387,9 +387,22 @@ class Repo:
                     "Validatable",
                 ):
                     ok = False
+            if ok and self._has_open_abstract_method(c):
+                ok = False          # an abstract base of the library's own (cannot be instantiated)
             if ok:
                 out.append(c)
         return out
+
+    @staticmethod
+    def _has_open_abstract_method(c: ClassInfo) -> bool:
+        """Some method declared ``@abstractmethod`` in the class or an ancestor of the library is not overridden below it."""
+        mro = c.mro()
+        for i, k in enumerate(mro):
+            for name, fn in k.methods.items():
+                if any(ast.unparse(d).split(".")[-1] == "abstractmethod" for d in fn.decorator_list):
+                    if not any(name in kk.methods and not any(ast.unparse(d).split(".")[-1] == "abstractmethod" for d in kk.methods[name].decorator_list) for kk in mro[:i]):
+                        return True
+        return False
 
     def annotation_mentions(self, m: Module, ann: ast.expr, base: str, _seen=None) -> bool:
         """Does annotation expression mention a class deriving ``base``?"""
